@@ -52,6 +52,7 @@ def gen(i, R, tier, noninterference=True):
     swarm = {
         "set_policy": sw.choice(("mixed", "insertion")),
         "walk_policy": sw.choice(("shuffled", "shuffled", "reversed", "sorted")),
+        "dot_root": sw.random() < 0.12,
         "channels": sw.sample(("yml", "cli", "gitignore"), sw.randint(0, 3)),
         "distractors": sw.random() < 0.5,
         "track_states": True,
